@@ -83,7 +83,13 @@ func (e *c18Env) lines() []text.Segment {
 	return out
 }
 
-var c18Spaces = []byte("                ")
+// appendSpaces appends n spaces (the model of virtual padding, for any width).
+func appendSpaces(buf []byte, n int) []byte {
+	for i := 0; i < n; i++ {
+		buf = append(buf, ' ')
+	}
+	return buf
+}
 
 // lineView = virtual padding spaces, then the bytes from the cursor to the end of the line.
 func (e *c18Env) lineView(buf []byte, p c18Pos) []byte {
@@ -91,7 +97,7 @@ func (e *c18Env) lineView(buf []byte, p c18Pos) []byte {
 	if e.eof(p) {
 		return buf
 	}
-	buf = append(buf, c18Spaces[:p.Seg.Padding]...)
+	buf = appendSpaces(buf, p.Seg.Padding)
 	return append(buf, e.Src[p.Seg.Start:p.Seg.Stop]...)
 }
 
@@ -106,7 +112,7 @@ func (e *c18Env) fullView(buf []byte, p c18Pos) []byte {
 	}
 	for l := p.Line + 1; l < len(e.Segs); l++ {
 		s := e.Segs[l]
-		buf = append(buf, c18Spaces[:s.Padding]...)
+		buf = appendSpaces(buf, s.Padding)
 		buf = append(buf, e.Src[s.Start:s.Stop]...)
 	}
 	return buf
@@ -209,7 +215,7 @@ func (o c18Op) String() string {
 	case "ValueAll":
 		return "Value(every segment inside a line)"
 	case "AdvanceAndSetPadding":
-		return fmt.Sprintf("AdvanceAndSetPadding(%d,%d)", o.A/10, o.A%10)
+		return fmt.Sprintf("AdvanceAndSetPadding(%d,%d)", o.A/1000, o.A%1000)
 	case "FindClosure":
 		return fmt.Sprintf("FindClosure('[',']',%s)", c18OptString(o.A))
 	}
@@ -245,7 +251,7 @@ func c18Menu(full bool) []c18Op {
 		{"AdvanceLine", 0},
 		{"Save", 1}, {"SetPosition", 0}, {"SetPosition", 1},
 		{"SetPadding", 0}, {"SetPadding", 1}, {"SetPadding", 3},
-		{"AdvanceAndSetPadding", 12}, {"AdvanceAndSetPadding", 20},
+		{"AdvanceAndSetPadding", 1002}, {"AdvanceAndSetPadding", 2000},
 		{"SkipSpaces", 0}, {"SkipBlankLines", 0}, {"ReadRune", 0}, {"PrecendingCharacter", 0},
 		{"Value", 0}, {"ValueSlot", 0}, {"ValueSlot", 1}, {"ValueAll", 0}, {"Match", 0}, {"FindSubMatch", 0}, {"ResetPosition", 0},
 	}
@@ -399,7 +405,7 @@ func (x *c18Exec) run(path []c18Op) (fail *c18Fail) {
 			x.b1 = e.fullView(x.b1, before)
 			n, pad := o.A, -1
 			if o.K == "AdvanceAndSetPadding" {
-				n, pad = o.A/10, o.A%10
+				n, pad = o.A/1000, o.A%1000
 			}
 			switch n {
 			case -1:
@@ -714,8 +720,12 @@ func runC18(r *core.Run) {
 		depth int
 		full  bool
 	}
+	var ladderMenu []c18Op
 	plan := func(name string, envs []*c18Env, depth int, full bool, rule string) {
 		menu := c18Menu(full)
+		if ladderMenu != nil {
+			menu = ladderMenu
+		}
 		s := r.Sub(name, fmt.Sprintf("%s; every sequence of ≤%d calls from a menu of %d (%s) is executed on a new reader with slot p0 = initial position; judged clauses: PeekLine = padding spaces + bytes from the cursor to the end of the line and its segment = Position; Peek = first byte of that view or EOF; Advance(n≤remaining) drops exactly n bytes of the full view; SetPosition(saved) restores Position; LineOffset = tab-expanded column from the line head minus padding; Value(seg) = seg.Value(source); FindClosure without Advance leaves Position untouched; after every call the position is inside the source and on a line of the reader; other calls (AdvanceLine, SetPadding, AdvanceAndSetPadding, Skip*, ReadRune, Match, FindSubMatch, ResetPosition, FindClosure+Advance) only move the cursor and the model re-synchronises from Position(); each sequence ends with the observation PeekLine, Peek, LineOffset", rule, depth, len(menu), opMenuString(menu)))
 		var perEnv int64 = 0
 		p := int64(1)
@@ -788,6 +798,20 @@ func runC18(r *core.Run) {
 		plan("blockreader-words3-depth3", mkBlocks(w3, 3, []int{0, 1, 3}), 3, true, "block reader over every carving of every word of ≤3 tokens")
 		plan("blockreader-curated-depth4", mkBlocks(curated, 2, []int{0, 1}), 4, false, "block reader over every carving (≤2 segments) of 8 curated sources")
 	}
+	// padding ladder: EVERY padding width 0..maxP, set on the readers and carried by block-reader segments
+	maxP := core.Pick(r, 130, 520)
+	ladderSrcs := [][]byte{[]byte("ab\tc\nd"), []byte("\ta [b]\n"), []byte("a")}
+	for p := 0; p <= maxP; p++ {
+		if p > 40 && p%16 > 1 && p%16 < 15 && r.Quick() {
+			continue // quick: every width up to 40, then the widths around every multiple of 16
+		}
+		ladderMenu = []c18Op{{"SetPadding", p}, {"AdvanceAndSetPadding", 1000 + p}, {"PeekLine", 0}, {"Advance", 1}, {"Advance", -3}, {"Advance", -1},
+			{"Save", 1}, {"SetPosition", 1}, {"ValueSlot", 1}, {"ValueAll", 0}, {"FindClosure", 6}}
+		envs := mkReaders(ladderSrcs)
+		envs = append(envs, mkBlocks(ladderSrcs[:2], 2, []int{p})...)
+		plan(fmt.Sprintf("padding-ladder/%d", p), envs, 3, false, fmt.Sprintf("padding width %d: source reader over 3 short sources and block reader over every carving (≤2 segments, padding %d behind a dropped byte) of 2 of them", p, p))
+	}
+	ladderMenu = nil
 	_ = util.TabWidth
 }
 
